@@ -158,7 +158,7 @@ def lean_obligations(prop: str, extra_modules=(), thorough=False) -> dict:
     Returns dict(ok, obligations=[names], discharged=[names], problems=[str], checker_cmd).
     """
     res = {"ok": False, "obligations": [], "discharged": [], "problems": [], "axioms": {},
-           "checker_cmd": "cd lean && python3 gen_instances.py --check && lake build && lake env lean .audit/%s.lean  (#print axioms on every theorem of Properties/%s.lean%s)" % (prop, prop, "; lake env leanchecker" if thorough else "")}
+           "checker_cmd": "cd lean && python3 gen_instances.py --check && lake build Properties.%s Witness.%s driver && lake env lean .audit/%s.lean  (#print axioms on every theorem of Properties/%s.lean%s)" % (prop, prop, prop, prop, "; lake env leanchecker" if thorough else "")}
     lock = open(LEAN / ".lock", "w")
     fcntl.flock(lock, fcntl.LOCK_EX)
     try:
@@ -170,7 +170,10 @@ def lean_obligations(prop: str, extra_modules=(), thorough=False) -> dict:
         if p.returncode != 0:
             res["problems"].append("gen_instances --check: " + p.stdout[-400:])
             return res
-        p = subprocess.run(["lake", "build"], cwd=LEAN, capture_output=True, text=True, timeout=3000)
+        targets = [f"Properties.{prop}", "driver"] + list(extra_modules)
+        if (LEAN / "Witness" / f"{prop}.lean").exists():
+            targets.append(f"Witness.{prop}")
+        p = subprocess.run(["lake", "build"] + targets, cwd=LEAN, capture_output=True, text=True, timeout=3000)
         if p.returncode != 0:
             errs = [l for l in (p.stdout + p.stderr).splitlines() if "error" in l.lower()]
             res["problems"].append("lake build failed: " + " | ".join(errs[:8]))
